@@ -83,7 +83,7 @@ def parse_terse(out):
     return res
 
 
-def _tree_key(repo, g, n, tier, names):
+def _tree_key(repo, g, n, unwind):
     """content hash of everything a group run depends on: the repository sources, the harness files, this runner"""
     import hashlib
     h = hashlib.sha256()
@@ -102,7 +102,7 @@ def _tree_key(repo, g, n, tier, names):
         if os.path.exists(f) and not f.endswith("groups.json"):
             h.update(f.replace(repo, "<repo>").encode())
             h.update(open(f, "rb").read())
-    h.update(("%s|%s|%s|%s" % (g, n, tier, ",".join(sorted(names)))).encode())
+    h.update(("%s|%s|%s" % (g, n, unwind)).encode())
     return h.hexdigest()[:24]
 
 
@@ -138,23 +138,29 @@ def run_groups(prop, groups, tier, workdir, only_harness=None):
             hs = [h for h in hs if h["name"] == only_harness]
         if not hs:
             continue
-        key = _tree_key(repo, g, n, tier, [h["name"] for h in hs])
-        cfile = os.path.join(cdir, key + ".json")
-        res = None
-        if os.path.exists(cfile) and not os.environ.get("VERIF_NOCACHE") and not only_harness:
-            try:
-                res = json.load(open(cfile))
-            except Exception:
-                res = None
-        plan.append({"g": g, "G": G, "n": n, "unwind": n + G.get("unwind_extra", 3), "hs": hs, "key": key, "cfile": cfile, "res": res,
-                     "note": "reused (identical inputs, key %s)" % key if res is not None else "fresh run (key %s)" % key})
+        unwind = n + G.get("unwind_extra", 3)
+        key = _tree_key(repo, g, n, unwind)
+        kdir = os.path.join(cdir, key)
+        os.makedirs(kdir, exist_ok=True)
+        res = {}
+        if not os.environ.get("VERIF_NOCACHE") and not only_harness:
+            for h in hs:
+                cf = os.path.join(kdir, h["name"].replace("::", ".") + ".json")
+                if os.path.exists(cf):
+                    try:
+                        res[h["name"]] = json.load(open(cf))
+                    except Exception:
+                        pass
+        todo = [h for h in hs if h["name"] not in res]
+        plan.append({"g": g, "G": G, "n": n, "unwind": unwind, "hs": hs, "todo": todo, "key": key, "kdir": kdir, "res": res,
+                     "reused": set(res.keys())})
     # ---- phase 2: one `cargo kani` invocation per (N, unwind, features) class: the crate is compiled once per class
     classes = {}
     for pl in plan:
-        if pl["res"] is None:
+        if pl["todo"]:
             classes.setdefault((pl["n"], pl["unwind"], pl["G"].get("features", "alloc")), []).append(pl)
     for (n, unwind, feats), pls in classes.items():
-        names = [h["name"] for pl in pls for h in pl["hs"]]
+        names = [h["name"] for pl in pls for h in pl["todo"]]
         tag = "+".join(pl["g"] for pl in pls)
         tdir = os.path.join(workdir if alt else os.path.join(vxlib.WORK, "kani"), "target-n%s-u%s" % (n, unwind))
         env = dict(os.environ, CARGO_NET_OFFLINE="true", VERIF_KANI_N=str(n), CARGO_TERM_COLOR="never")
@@ -177,15 +183,16 @@ def run_groups(prop, groups, tier, workdir, only_harness=None):
             continue
         allres = parse_terse(out)
         for pl in pls:
-            pl["res"] = {h["name"]: allres[h["name"]] for h in pl["hs"] if h["name"] in allres}
-            complete = len(pl["res"]) == len(pl["hs"]) and all(r["status"] in ("SUCCESSFUL", "FAILED") for r in pl["res"].values())
-            if complete and not only_harness:
-                json.dump(pl["res"], open(pl["cfile"], "w"))
+            for h in pl["todo"]:
+                r = allres.get(h["name"])
+                if r is None:
+                    continue
+                pl["res"][h["name"]] = r
+                if r["status"] in ("SUCCESSFUL", "FAILED") and not only_harness:
+                    json.dump(r, open(os.path.join(pl["kdir"], h["name"].replace("::", ".") + ".json"), "w"))
     # ---- phase 3: verdicts
     for pl in plan:
-        g, G, n, hs, res, cache_note = pl["g"], pl["G"], pl["n"], pl["hs"], pl["res"], pl["note"]
-        if res is None:
-            continue
+        g, G, n, hs, res = pl["g"], pl["G"], pl["n"], pl["hs"], pl["res"]
         for h in hs:
             r = res.get(h["name"])
             if r is None:
@@ -196,7 +203,8 @@ def run_groups(prop, groups, tier, workdir, only_harness=None):
             checks += max(r["checks"], 1)
             solver_s += r["time_s"]
             ev = {"harness": h["name"], "kind": h["kind"], "function": h.get("function"), "group": g, "N": n, "bounded": h.get("bounded", "<= %d nodes" % n),
-                  "checks": r["checks"], "failed": r["failed"], "covers": [r["covers_ok"], r["covers_total"]], "time_s": r["time_s"], "status": r["status"], "run": cache_note}
+                  "checks": r["checks"], "failed": r["failed"], "covers": [r["covers_ok"], r["covers_total"]], "time_s": r["time_s"], "status": r["status"],
+                  "run": ("reused (identical inputs, key %s)" if h["name"] in pl["reused"] else "fresh run (key %s)") % pl["key"]}
             harness_ev.append(ev)
             if r["covers_total"] and r["covers_ok"] != r["covers_total"]:
                 infra.append("harness %s: only %s of %s cover properties satisfied (vacuous pre-state?)" % (h["name"], r["covers_ok"], r["covers_total"]))
